@@ -356,6 +356,12 @@ impl Runner {
     }
 
     pub fn finish(mut self, out_path: &str) {
+        self.write_report(out_path);
+    }
+
+    /// Write the report collected so far (also used as a checkpoint before
+    /// scenarios in which a broken runtime can only abort the process).
+    pub fn write_report(&mut self, out_path: &str) {
         let st = &self.stats;
         let ex = &mut self.report.extra;
         ex.insert("executions".into(), json!(st.execs));
@@ -485,6 +491,9 @@ pub fn main_for(prop: &'static str, rule: &str) {
         let leaky = sc.cfg.cancel_inject || sc.cfg.may_stick;
         if (leak_clean && leaky) || (only_leaky && !leaky) {
             continue;
+        }
+        if sc.name.contains("cabi_client") {
+            runner.write_report(out_path);
         }
         // exhaustive enumeration is split by scenario, random runs by seed
         if plan.max_exhaustive > 0 && (i as u64) % of == shard {
